@@ -67,6 +67,12 @@ def ref_su2(a, b, g):
     return Uz(a) @ Uy(b) @ Uz(g)
 
 
+def amax(a):
+    """max |a| with NaN counted as +inf (a NaN result must never pass a `> tol` test)"""
+    a = np.abs(np.asarray(a))
+    return float('inf') if (a.size and np.isnan(a).any()) else (float(a.max()) if a.size else 0.0)
+
+
 def exact_rz(t):
     c, s = math.cos(t), math.sin(t)
     return np.array([[c, -s, 0], [s, c, 0], [0, 0, 1.0]])
@@ -184,6 +190,25 @@ def correspondence(ctx):
         cmp(ctx, ops[k + 1], ok, model[k + 1], U)
         k += 2
     ctx.sample({'op': ops[0], 'out': model[0]})
+
+    # ---- broadcast-shaped angle batches (k,1) x (1,l) x scalar: the batched forward maps against the model, element by element
+    nprng0 = np.random.default_rng(ctx.np_seed + 3)
+    for (k_, l_) in [(2, 3), (3, 2), (4, 5)]:
+        A_ = nprng0.uniform(-7, 7, size=(k_, 1)); B_ = np.array([[0.0, PI, 1.0, 2.5, 0.3][:l_]]); g_ = float(nprng0.uniform(-7, 7))
+        Rb = guarded(lambda: G.angle_to_so3(A_, B_, g_)); Ub = guarded(lambda: G.angle_to_su2(A_, B_, g_))
+        ops_b = []
+        for i in range(k_):
+            for j in range(l_):
+                ops_b += [f'C15 a2so3 {f2b(A_[i, 0])} {f2b(B_[0, j])} {f2b(g_)}', f'C15 a2su2 {f2b(A_[i, 0])} {f2b(B_[0, j])} {f2b(g_)}']
+        mb = common.run_model(ops_b)
+        q = 0
+        for i in range(k_):
+            for j in range(l_):
+                okR = (not isinstance(Rb, str)) and Rb.shape == (k_, l_, 3, 3) and np.abs(Rb[i, j] - np.array(parse_f(mb[q])).reshape(3, 3)).max() <= 1e-12
+                okU = (not isinstance(Ub, str)) and Ub.shape == (k_, l_, 2, 2) and np.abs(Ub[i, j] - parse_cx(mb[q + 1]).reshape(2, 2)).max() <= 1e-12
+                cmp(ctx, ops_b[q], okR, mb[q], Rb if isinstance(Rb, str) else Rb[i, j], key='broadcast-a2so3')
+                cmp(ctx, ops_b[q + 1], okU, mb[q + 1], Ub if isinstance(Ub, str) else Ub[i, j], key='broadcast-a2su2')
+                q += 2
 
     # ---- su2_to_so3: exact tie on dyadic rationals (binary64 arithmetic on these is exact) ---------------------------
     ops, impl = [], []
@@ -324,6 +349,17 @@ def correspondence(ctx):
         ok = (not isinstance(D, str)) and D.shape == m.shape and np.abs(D - m).max() <= 1e-10
         if ok: delta['irrep'] = max(delta['irrep'], float(np.abs(D - m).max()))
         cmp(ctx, op, ok, mo[:200], D, nontrivial=j2 > 0)
+    # the same matrices from the half-angle data (irrepCS) and as Sym^{j2}(angle_to_su2) (symD): the objects of the j2<=3 theorems
+    ops, aux = [], []
+    for j2 in range(0, 11):
+        for a, b, g, tag in sel[::2]:
+            ops.append(f'C15 irrepcs {j2} {f2b(a)} {f2b(b)} {f2b(g)}'); aux.append((j2, a, b, g))
+    model = common.run_model(ops)
+    for op, (j2, a, b, g), mo in zip(ops, aux, model):
+        D = guarded(lambda: np.asarray(G.get_su2_irrep(j2, a, b, g), dtype=np.complex128))
+        parts = mo.split(' ')
+        ok = (not isinstance(D, str)) and len(parts) == 2 and all(np.abs(D - parse_cx(x).reshape(j2 + 1, j2 + 1)).max() <= 1e-10 for x in parts)
+        cmp(ctx, op, ok, mo[:200], D, nontrivial=j2 > 0)
     ctx.extra['measured_model_vs_impl_delta'] = delta
     ctx.assumptions.append('Float correspondence: model and implementation call different libm builds; measured max deviation recorded in measured_model_vs_impl_delta')
 
@@ -347,8 +383,8 @@ def probe(ctx):
             return G.angle_to_so3(a, b, g), (float(a), float(b), float(g))
         r = guarded(f)
         tol = 1e-6 if in_threshold(R) else 1e-9
-        if isinstance(r, str) or not (np.abs(r[0] - R).max() <= tol):
-            ctx.fail('so3-roundtrip', f'angle_to_so3(so3_to_angle(R)) != R ({tag}): ' + (r if isinstance(r, str) else f'err={np.abs(r[0]-R).max():.3g}, angles={r[1]}'),
+        if isinstance(r, str) or not (amax(r[0] - R) <= tol):
+            ctx.fail('so3-roundtrip', f'angle_to_so3(so3_to_angle(R)) != R ({tag}): ' + (r if isinstance(r, str) else f'err={amax(r[0]-R):.3g}, angles={r[1]}'),
                      dict(op='so3-roundtrip', R=fl(R), tag=tag))
         else:
             ctx.probe_ok(('rt', tag, hash(R.tobytes())))
@@ -374,8 +410,8 @@ def probe(ctx):
             single = np.stack([G.angle_to_so3(*G.so3_to_angle(inputs[i][0])) for i in idx]).reshape(shape + (3, 3))
             return Rb, single
         r = guarded(f)
-        if isinstance(r, str) or np.abs(r[0] - r[1]).max() > 1e-12:
-            ctx.fail('so3-batch-elementwise', f'so3_to_angle on a mixed batch of shape {shape} differs from item-wise conversion: ' + (r if isinstance(r, str) else f'{np.abs(r[0]-r[1]).max():.3g}'),
+        if isinstance(r, str) or amax(r[0] - r[1]) > 1e-12:
+            ctx.fail('so3-batch-elementwise', f'so3_to_angle on a mixed batch of shape {shape} differs from item-wise conversion: ' + (r if isinstance(r, str) else f'{amax(r[0]-r[1]):.3g}'),
                      dict(op='so3-batch', shape=list(shape), batch=fl(batch)))
         else:
             ctx.probe_ok(('batch', shape, tuple(idx)))
@@ -385,7 +421,7 @@ def probe(ctx):
             V = G.angle_to_su2(a, b, g)
             return V
         r = guarded(f2)
-        if isinstance(r, str) or max(min(np.abs(x - y).max(), np.abs(x + y).max()) for x, y in zip(r.reshape(-1, 2, 2), Ub.reshape(-1, 2, 2))) > 1e-6:
+        if isinstance(r, str) or max(min(amax(x - y), amax(x + y)) for x, y in zip(r.reshape(-1, 2, 2), Ub.reshape(-1, 2, 2))) > 1e-6:
             ctx.fail('su2-batch-roundtrip', f'su2 round trip on a mixed batch of shape {shape} fails: ' + (r if isinstance(r, str) else 'mismatch'),
                      dict(op='su2-batch', shape=list(shape), batch=[[x.real, x.imag] for x in Ub.reshape(-1)]))
         else:
@@ -404,27 +440,27 @@ def probe(ctx):
         V = guarded(f)
         # inside the threshold region (|U00| or |U01| below ~zero_eps) the extraction is only accurate to ~zero_eps
         tol = 1e-6 if (abs(U[0, 1]) < 2e-7 or abs(U[0, 0]) < 2e-7) else 1e-9
-        if isinstance(V, str) or min(np.abs(V - U).max(), np.abs(V + U).max()) > tol:
-            ctx.fail('su2-roundtrip', f'angle_to_su2(su2_to_angle(U)) != +-U ({tag}): ' + (V if isinstance(V, str) else f'{min(np.abs(V-U).max(), np.abs(V+U).max()):.3g}'),
+        if isinstance(V, str) or min(amax(V - U), amax(V + U)) > tol:
+            ctx.fail('su2-roundtrip', f'angle_to_su2(su2_to_angle(U)) != +-U ({tag}): ' + (V if isinstance(V, str) else f'{min(amax(V-U), amax(V+U)):.3g}'),
                      dict(op='su2-roundtrip', U=[[x.real, x.imag] for x in U.reshape(-1)], tag=tag))
         else:
             ctx.probe_ok(('su2rt', tag, hash(U.tobytes())))
         R = guarded(lambda: G.su2_to_so3(U))
         R2 = guarded(lambda: G.su2_to_so3(-U))
-        if isinstance(R, str) or isinstance(R2, str) or np.abs(R - R2).max() > 1e-12 or np.abs(R @ R.T - np.eye(3)).max() > 1e-12 or abs(np.linalg.det(R) - 1) > 1e-12:
+        if isinstance(R, str) or isinstance(R2, str) or amax(R - R2) > 1e-12 or amax(R @ R.T - np.eye(3)) > 1e-12 or abs(np.linalg.det(R) - 1) > 1e-12:
             ctx.fail('su2-to-so3', f'su2_to_so3(U) not a rotation or differs from su2_to_so3(-U) ({tag})', dict(op='su2-to-so3', U=[[x.real, x.imag] for x in U.reshape(-1)]))
         else:
             ctx.probe_ok()
     for (a, b, g, tag) in grid:
         r = guarded(lambda: (G.su2_to_so3(G.angle_to_su2(a, b, g)), G.angle_to_so3(a, b, g)))
-        if isinstance(r, str) or np.abs(r[0] - r[1]).max() > 1e-12 or np.abs(r[1] - ref_so3(a, b, g)).max() > 1e-12:
+        if isinstance(r, str) or amax(r[0] - r[1]) > 1e-12 or amax(r[1] - ref_so3(a, b, g)) > 1e-12:
             ctx.fail('su2-so3-angles', f'su2_to_so3(angle_to_su2(a,b,g)) != angle_to_so3(a,b,g) = Rz Ry Rz at {(a, b, g)}', dict(op='su2-so3-angles', angles=[a, b, g]))
         else:
             ctx.probe_ok(('cov', a, b, g))
     for _ in range(100 if ctx.quick() else 2000):
         (U1, _), (U2, _) = rng.choice(su2s), rng.choice(su2s)
         r = guarded(lambda: (G.su2_to_so3(U1 @ U2), G.su2_to_so3(U1) @ G.su2_to_so3(U2)))
-        if isinstance(r, str) or np.abs(r[0] - r[1]).max() > 1e-12:
+        if isinstance(r, str) or amax(r[0] - r[1]) > 1e-12:
             ctx.fail('su2-to-so3-hom', 'su2_to_so3(U1 U2) != su2_to_so3(U1) su2_to_so3(U2)', dict(op='hom', U1=[[x.real, x.imag] for x in U1.reshape(-1)], U2=[[x.real, x.imag] for x in U2.reshape(-1)]))
         else:
             ctx.probe_ok(('hom', hash(U1.tobytes()), hash(U2.tobytes())))
@@ -437,7 +473,7 @@ def probe(ctx):
             U1, U2 = haar[2 * trial], haar[2 * trial + 1]
             def f():
                 D1, D2, D12 = G.get_su2_irrep(j2, U1), G.get_su2_irrep(j2, U2), G.get_su2_irrep(j2, U1 @ U2)
-                return np.abs(D1 @ D2 - D12).max(), np.abs(D1 @ D1.conj().T - np.eye(j2 + 1)).max()
+                return amax(D1 @ D2 - D12), amax(D1 @ D1.conj().T - np.eye(j2 + 1))
             r = guarded(f)
             if isinstance(r, str) or r[0] > 1e-9 or r[1] > 1e-9:
                 ctx.fail('irrep-hom', f'get_su2_irrep(j2={j2}) not a unitary homomorphism on Haar samples: {r}', dict(op='irrep-hom', j2=j2, U1=[[x.real, x.imag] for x in U1.reshape(-1)], U2=[[x.real, x.imag] for x in U2.reshape(-1)]))
@@ -448,7 +484,7 @@ def probe(ctx):
             for U2 in special[3:9]:
                 def f():
                     D1, D2, D12 = G.get_su2_irrep(j2, U1), G.get_su2_irrep(j2, U2), G.get_su2_irrep(j2, U1 @ U2)
-                    return np.abs(D1 @ D2 - D12).max()
+                    return amax(D1 @ D2 - D12)
                 r = guarded(f)
                 # |U00|^2-|U01|^2 rounds to 1-ulp, arccos of that is ~1.5e-8: inside the threshold region, accuracy ~zero_eps*(j2+1)
                 if isinstance(r, str) or r > 1e-6 * (j2 + 1):
@@ -459,14 +495,14 @@ def probe(ctx):
     # j2=1 is the defining representation, also at U[0,0]=0 (beta=pi), where the 4pi branch of gamma cannot be read off U[0,0]
     # (repaired in /repo 7f0ceda; before that get_su2_irrep(1,[[0,1],[-1,0]]) returned -U)
     for U in [np.array([[0, 1], [-1, 0]], dtype=np.complex128), np.array([[0, -1], [1, 0]], dtype=np.complex128), np.array([[0, 1j], [1j, 0]])]:
-        r = guarded(lambda: np.abs(G.get_su2_irrep(1, U) - U).max())
+        r = guarded(lambda: amax(G.get_su2_irrep(1, U) - U))
         if isinstance(r, str) or r > 1e-9:
             ctx.fail('su2-sign-at-beta-pi', f'get_su2_irrep(1, U) = -U for U={U.tolist()} (su2_to_angle decides the 4pi branch of gamma from Re(e^(i(a+g)/2) U00), which is 0 when beta=pi): deviation {r}',
                      dict(op='irrep1', U=[[x.real, x.imag] for x in U.reshape(-1)]))
         else:
             ctx.probe_ok(('irrep1-betapi', hash(U.tobytes())))
     for U in haar[:6]:
-        r = guarded(lambda: np.abs(G.get_su2_irrep(1, U) - U).max())
+        r = guarded(lambda: amax(G.get_su2_irrep(1, U) - U))
         if isinstance(r, str) or r > 1e-9:
             ctx.fail('irrep-j2-1', f'get_su2_irrep(1, U) != U: {r}', dict(op='irrep1', U=[[x.real, x.imag] for x in U.reshape(-1)]))
         else:
@@ -477,8 +513,8 @@ def probe(ctx):
         jx, jy, jz = numqi.matrix_space.get_angular_momentum_op(j2)
         j = j2 / 2
         c = lambda A, B: A @ B - B @ A
-        err = max(np.abs(c(jx, jy) - 1j * jz).max(), np.abs(c(jy, jz) - 1j * jx).max(), np.abs(c(jz, jx) - 1j * jy).max(),
-                  np.abs(jx @ jx + jy @ jy + jz @ jz - j * (j + 1) * np.eye(j2 + 1)).max()) if j2 > 0 else float(np.abs(jx).max() + np.abs(jy).max() + np.abs(jz).max())
+        err = max(amax(c(jx, jy) - 1j * jz), amax(c(jy, jz) - 1j * jx), amax(c(jz, jx) - 1j * jy),
+                  amax(jx @ jx + jy @ jy + jz @ jz - j * (j + 1) * np.eye(j2 + 1))) if j2 > 0 else float(amax(jx) + amax(jy) + amax(jz))
         if err > 1e-10 * (1 + j * j):
             ctx.fail('angular-momentum', f'su(2) relations violated for j2={j2}: {err:.3g}', dict(op='angmom', j2=j2))
         else:
@@ -488,7 +524,7 @@ def probe(ctx):
             a, b, g = rng.uniform(0, 6), rng.uniform(0, 3), rng.uniform(0, 6)
             D = G.get_su2_irrep(j2, a, b, g)
             E = scipy.linalg.expm(-1j * a * jz) @ scipy.linalg.expm(-1j * b * jy) @ scipy.linalg.expm(-1j * g * jz)
-            if np.abs(D - E).max() > 1e-9:
+            if amax(D - E) > 1e-9:
                 ctx.fail('irrep-generators', f'get_su2_irrep(j2={j2}) != exp(-i a Jz) exp(-i b Jy) exp(-i g Jz)', dict(op='irrep-gen', j2=j2, angles=[a, b, g]))
             else:
                 ctx.probe_ok(('gen', j2))
@@ -500,7 +536,7 @@ def probe(ctx):
             cg = numqi.matrix_space.get_clebsch_gordan_coeffient(j1d, j2d)
             rows = np.concatenate([c.reshape(c.shape[0], -1) for _, c in cg], axis=0)
             n = (j1d + 1) * (j2d + 1)
-            ok = rows.shape == (n, n) and np.abs(rows @ rows.T - np.eye(n)).max() < 1e-10
+            ok = rows.shape == (n, n) and amax(rows @ rows.T - np.eye(n)) < 1e-10
             if ok:
                 ops1 = numqi.matrix_space.get_angular_momentum_op(j1d); ops2 = numqi.matrix_space.get_angular_momentum_op(j2d)
                 for jd, c in cg:
@@ -508,19 +544,103 @@ def probe(ctx):
                     C = c.reshape(jd + 1, -1)
                     for A1, A2, AJ in zip(ops1, ops2, opsj):
                         tot = np.kron(A1, np.eye(j2d + 1)) + np.kron(np.eye(j1d + 1), A2)
-                        if np.abs(C @ tot - AJ @ C).max() > 1e-10:
+                        if amax(C @ tot - AJ @ C) > 1e-10:
                             ok = False
             if not ok:
                 ctx.fail('clebsch-gordan', f'CG table for (j1_double, j2_double)=({j1d},{j2d}) is not an orthogonal intertwiner', dict(op='cg', j1d=j1d, j2d=j2d))
             else:
                 ctx.probe_ok(('cg', j1d, j2d))
 
+    # P8: dense sweep of the poles beta in {0, pi}: k*pi/16 grid and random angles, SU(2) and SO(3), plus rotations that land on
+    # the poles only through matrix products (R R^T, Rx(t)Rx(-t), Rz Rz, Ry(t)Ry(pi-t)); single items and mixed batches
+    def rx(t):
+        c, s_ = math.cos(t), math.sin(t)
+        return np.array([[1.0, 0, 0], [0, c, -s_], [0, s_, c]])
+
+    def ry(t):
+        c, s_ = math.cos(t), math.sin(t)
+        return np.array([[c, 0, s_], [0, 1.0, 0], [-s_, 0, c]])
+
+    nrand = 500 if ctx.quick() else 5000
+    phis = [k * PI / 16 for k in range(0, 65)] + [rng.uniform(-4 * PI, 4 * PI) for _ in range(nrand)]
+    pole_su2, pole_so3 = [], []
+    for phi in phis:
+        pole_su2.append((ref_su2(phi, 0, 0), 'su2-beta0', phi))
+        pole_su2.append((ref_su2(phi, 0, 0) @ Y, 'su2-betapi', phi))
+        pole_so3.append((exact_rz(phi), 'so3-beta0', phi))
+        pole_so3.append((exact_rz(phi) @ np.diag([-1.0, 1.0, -1.0]), 'so3-betapi', phi))
+    for _ in range(nrand // 2):
+        t, u = rng.uniform(-7, 7), rng.uniform(-7, 7)
+        Rr = ref_so3(rng.uniform(0, 6), rng.uniform(0, 3), rng.uniform(0, 6))
+        pole_so3 += [(rx(t) @ rx(-t), 'so3-RxRx', t), (Rr @ Rr.T, 'so3-RRt', t), (exact_rz(t) @ exact_rz(u), 'so3-RzRz', t),
+                     (ry(t) @ ry(PI - t), 'so3-RyRy-pi', t), (rx(t) @ ry(PI) @ rx(t), 'so3-RxRyRx-pi', t)]
+        Ur = ref_su2(rng.uniform(0, 6), rng.uniform(0, 3), rng.uniform(0, 6))
+        pole_su2 += [(Ur @ Ur.conj().T, 'su2-UUh', t), (ref_su2(t, 0, 0) @ ref_su2(u, 0, 0), 'su2-zz', t), (ref_su2(0, t, 0) @ ref_su2(0, PI - t, 0), 'su2-yy-pi', t)]
+    for R, tag, par in pole_so3:
+        def f():
+            a, b, g = G.so3_to_angle(R)
+            return np.array([float(a), float(b), float(g)]), G.angle_to_so3(a, b, g)
+        r = guarded(f)
+        if isinstance(r, str) or not np.all(np.isfinite(r[0])) or amax(r[1] - R) > 1e-6:
+            ctx.fail('so3-roundtrip-pole', f'so3_to_angle at a pole ({tag}, parameter {par!r}): ' + (r if isinstance(r, str) else f'angles={r[0].tolist()}, |rebuilt-R|={amax(r[1] - R):.3g}'),
+                     dict(op='so3-roundtrip', R=fl(R), tag=tag, parameter=par))
+        else:
+            ctx.probe_ok(('pole', tag, par))
+    for U, tag, par in pole_su2:
+        def f():
+            a, b, g = G.su2_to_angle(U)
+            return np.array([float(a), float(b), float(g)]), G.angle_to_su2(a, b, g), np.asarray(G.get_su2_irrep(1, U)), np.asarray(G.get_su2_irrep(3, U))
+        r = guarded(f)
+        rep = dict(op='su2-roundtrip', U=[[x.real, x.imag] for x in U.reshape(-1)], tag=tag, parameter=par)
+        if isinstance(r, str) or not np.all(np.isfinite(r[0])) or amax(r[1] - U) > 1e-6 or amax(r[2] - U) > 1e-6 or not np.all(np.isfinite(r[3])):
+            ctx.fail('su2-roundtrip-pole', f'su2_to_angle / get_su2_irrep at a pole ({tag}, parameter {par!r}): ' + (r if isinstance(r, str) else f'angles={r[0].tolist()}, |rebuilt-U|={amax(r[1] - U):.3g}, |D1(U)-U|={amax(r[2] - U):.3g}'), rep)
+        else:
+            ctx.probe_ok(('pole', tag, par))
+    for trial in range(6 if ctx.quick() else 60):
+        shape = rng.choice([(8,), (3, 4), (2, 1, 5)])
+        n = int(np.prod(shape))
+        sel3 = [pole_so3[rng.randrange(len(pole_so3))][0] for _ in range(n)]
+        sel2 = [pole_su2[rng.randrange(len(pole_su2))][0] for _ in range(n)]
+        sel3[1] = ref_so3(1.0, 2.0, 3.0); sel2[1] = ref_su2(1.0, 2.0, 3.0)
+        Rb = np.stack(sel3).reshape(shape + (3, 3)); Ub = np.stack(sel2).reshape(shape + (2, 2))
+        r = guarded(lambda: (G.angle_to_so3(*G.so3_to_angle(Rb)), G.angle_to_su2(*G.su2_to_angle(Ub)), np.asarray(G.get_su2_irrep(2, Ub)),
+                             np.stack([np.asarray(G.get_su2_irrep(2, u)) for u in sel2]).reshape(shape + (3, 3))))
+        if isinstance(r, str) or amax(r[0] - Rb) > 1e-6 or amax(r[1] - Ub) > 1e-6 or amax(r[2] - r[3]) > 1e-9:
+            ctx.fail('pole-batch', f'mixed batch of shape {shape} with gimbal-lock elements (grid, random, composed) is not converted element-wise: ' + (r if isinstance(r, str) else f'{amax(r[0] - Rb):.3g}, {amax(r[1] - Ub):.3g}, {amax(r[2] - r[3]):.3g}'),
+                     dict(op='pole-batch', shape=list(shape), R=fl(Rb), U=[[x.real, x.imag] for x in Ub.reshape(-1)]))
+        else:
+            ctx.probe_ok(('polebatch', trial))
+
+    # P9: angle batches built by broadcasting, ndim >= 2 with trailing dimension > 1
+    for trial in range(4 if ctx.quick() else 40):
+        k, l = rng.randint(2, 4), rng.randint(2, 5)
+        A = np.array([rng.uniform(-7, 7) for _ in range(k)]); B = np.array([rng.choice([0.0, PI, rng.uniform(0, 3)]) for _ in range(l)]); gam = rng.uniform(-7, 7)
+        for tag, (a_, b_, g_) in [('(k,1),(1,l),()', (A[:, None], B[None, :], gam)), ('(k,1),(l,),()', (A[:, None], B, gam)), ('(),(k,1),(1,l)', (gam, A[:, None], B[None, :])),
+                                  ('(k,l),(k,l),(k,l)', np.broadcast_arrays(A[:, None], B[None, :], np.float64(gam))), ('(1,l),(k,1),(k,l)', (B[None, :], A[:, None], np.add.outer(A, B)))]:
+            af, bf, gf = [np.broadcast_to(np.asarray(x, dtype=np.float64), (k, l)) for x in (a_, b_, g_)]
+            def f():
+                R = G.angle_to_so3(a_, b_, g_); U = G.angle_to_su2(a_, b_, g_); D = np.asarray(G.get_su2_irrep(3, a_, b_, g_))
+                assert R.shape == (k, l, 3, 3) and U.shape == (k, l, 2, 2) and D.shape == (k, l, 4, 4)
+                e = 0.0
+                for i in range(k):
+                    for j in range(l):
+                        e = max(e, amax(R[i, j] - ref_so3(af[i, j], bf[i, j], gf[i, j])), amax(U[i, j] - ref_su2(af[i, j], bf[i, j], gf[i, j])),
+                                amax(D[i, j] - np.asarray(G.get_su2_irrep(3, af[i, j], bf[i, j], gf[i, j]))))
+                Rt = G.angle_to_so3(*G.so3_to_angle(R)); Ut = G.angle_to_su2(*G.su2_to_angle(U))
+                return e, max(amax(Rt - R), amax(Ut - U))
+            r = guarded(f)
+            if isinstance(r, str) or r[0] > 1e-12 or r[1] > 1e-6:
+                ctx.fail('angle-broadcast', f'angle batches of broadcast shapes {tag} -> ({k},{l}): angle_to_so3 / angle_to_su2 / get_su2_irrep / round trip differ from the element-wise results: {r}',
+                         dict(op='angle-broadcast', shapes=tag, alpha=np.asarray(a_).tolist(), beta=np.asarray(b_).tolist(), gamma=np.asarray(g_).tolist()))
+            else:
+                ctx.probe_ok(('bcast', trial, tag))
+
     # P7: rational 2x2 rotations are orthogonal
     for _ in range(50):
         m, n = rng.randint(-40, 40), rng.randint(-40, 40)
         if m == 0 or n == 0 or abs(m) == abs(n): continue
         M = G.get_rational_orthogonal2_matrix(m, n)
-        if np.abs(M @ M.T - np.eye(2)).max() > 1e-14 or abs(np.linalg.det(M) - 1) > 1e-14:
+        if amax(M @ M.T - np.eye(2)) > 1e-14 or abs(np.linalg.det(M) - 1) > 1e-14:
             ctx.fail('rational-rot2', f'get_rational_orthogonal2_matrix({m},{n}) not in SO(2)', dict(op='rot2', m=m, n=n))
         else:
             ctx.probe_ok(('rot2', m, n))
@@ -531,15 +651,37 @@ def search(ctx, hints):
     # nothing extra to search beyond replaying the disagreeing forward ops through the reference formulas
     import numqi
     G = numqi.group
-    for d in hints[:300]:
+    for d in hints[:2000]:
         t = d['op'].split(' ')
+        if len(t) >= 12 and t[1] in ('so3ang', 'so3su2'):
+            R = np.array([b2f(x) for x in t[2:11]]).reshape(3, 3)
+            def f():
+                a, b, g = G.so3_to_angle(R)
+                return np.array([float(a), float(b), float(g)]), G.angle_to_so3(a, b, g)
+            r = guarded(f)
+            tol = 1e-6 if in_threshold(R) or abs(abs(R[2, 2]) - 1) < 1e-12 else 1e-9
+            if isinstance(r, str) or not np.all(np.isfinite(r[0])) or amax(r[1] - R) > tol:
+                ctx.fail('so3-roundtrip', 'angle_to_so3(so3_to_angle(R)) != R on an input where model and implementation disagree: ' + (r if isinstance(r, str) else f'angles={r[0].tolist()}'),
+                         dict(op='so3-roundtrip', R=[float(x) for x in R.reshape(-1)]))
+        if len(t) >= 7 and t[1] in ('su2ang', 'su2so3f'):
+            ar, ai, br, bi = [b2f(x) for x in t[2:6]]
+            a_, b_ = complex(ar, ai), complex(br, bi)
+            U = np.array([[a_, b_], [-b_.conjugate(), a_.conjugate()]])
+            def f():
+                al, be, ga = G.su2_to_angle(U)
+                D1, D3 = np.asarray(G.get_su2_irrep(1, U)), np.asarray(G.get_su2_irrep(3, U))
+                return np.array([float(al), float(be), float(ga)]), G.angle_to_su2(al, be, ga), D1, amax(np.asarray(G.get_su2_irrep(3, U @ U)) - D3 @ D3)
+            r = guarded(f)
+            if isinstance(r, str) or not np.all(np.isfinite(r[0])) or amax(r[1] - U) > 1e-6 or amax(r[2] - U) > 1e-6 or r[3] > 1e-5:
+                ctx.fail('su2-roundtrip', 'su2_to_angle / get_su2_irrep fail on an input where model and implementation disagree: ' + (r if isinstance(r, str) else f'angles={r[0].tolist()}, |rebuilt-U|={amax(r[1] - U):.3g}, hom={r[3]:.3g}'),
+                         dict(op='su2-roundtrip', U=[[x.real, x.imag] for x in U.reshape(-1)]))
         if len(t) >= 5 and t[1] == 'a2so3':
             a, b, g = [b2f(x) for x in t[2:5]]
             R = guarded(lambda: G.angle_to_so3(a, b, g))
-            if isinstance(R, str) or np.abs(R - ref_so3(a, b, g)).max() > 1e-12:
+            if isinstance(R, str) or amax(R - ref_so3(a, b, g)) > 1e-12:
                 ctx.fail('angle-to-so3', f'angle_to_so3{(a, b, g)} != Rz(a) Ry(b) Rz(g)', dict(op='a2so3', angles=[a, b, g]))
         if len(t) >= 5 and t[1] == 'a2su2':
             a, b, g = [b2f(x) for x in t[2:5]]
             U = guarded(lambda: G.angle_to_su2(a, b, g))
-            if isinstance(U, str) or np.abs(U - ref_su2(a, b, g)).max() > 1e-12:
+            if isinstance(U, str) or amax(U - ref_su2(a, b, g)) > 1e-12:
                 ctx.fail('angle-to-su2', f'angle_to_su2{(a, b, g)} != exp(-i a sz/2) exp(-i b sy/2) exp(-i g sz/2)', dict(op='a2su2', angles=[a, b, g]))
